@@ -1001,3 +1001,98 @@ contract(
     native_ok=False, crosscheck=False, refute=False,
     slice_note="last two statements of the per-ensemble loop of gamma_method",
 )
+
+
+# ---------------------------------------------------------------------------------------------------
+# gamma_method entry: every result of an earlier analysis is discarded before anything is computed (C03: no history)
+
+RESULT_DICTS = ["e_dvalue", "e_ddvalue", "e_tauint", "e_dtauint", "e_windowsize", "e_n_tauint", "e_n_dtauint", "e_rho", "e_drho",
+                "S", "tau_exp", "N_sigma"]
+
+
+def _reset_slice(mod, fnode):
+    out = []
+    for st in fnode.body:
+        if isinstance(st, ast.Expr) and isinstance(st.value, ast.Constant):
+            continue          # docstring
+        if isinstance(st, ast.FunctionDef):
+            return out
+        out.append(st)
+    from pyvc.sym import CheckerError
+    raise CheckerError("contract no longer binds: `def _parse_kwarg` not found in gamma_method")
+
+
+def _stale_obj(name, ctx, shape=None):
+    """an observable that carries the results of an earlier analysis (arbitrary, symbolic)"""
+    o = SObj("Obs", {"names": CList(["A|r1"], "list"), "_covobs": CDict()})
+    for k in RESULT_DICTS:
+        o.attrs[k] = CDict({"A": SReal(z3.Real(fresh("stale.%s" % k)))})
+    o.attrs["_dvalue"] = SReal(z3.Real(fresh("stale._dvalue")))
+    o.attrs["ddvalue"] = SReal(z3.Real(fresh("stale.ddvalue")))
+    return o
+
+
+def _reset_post(a, r):
+    if not isinstance(a.self, SObj):
+        return _history_post_native(a, r)
+    o = r.self
+    # the accumulators of the total error are `+=`-updated later on: they must not carry the previous analysis
+    # (that the per-ensemble dictionaries are rebuilt is checked natively: a stale entry that is overwritten is harmless)
+    return {"totals start from zero": And(eq(A(o, "_dvalue"), 0), eq(A(o, "ddvalue"), 0)),
+            "fft default": (r.fft is True) if "fft" not in a.kwargs.d else (r.fft is False)}
+
+
+def _history_native(args):
+    """natively the whole analysis is run twice on the same object with different parameters"""
+    o = args["self"]
+    o.gamma_method(**args["_first"])
+    o.gamma_method(**args["kwargs"])
+    from pyvc.driver import Namespace
+    return Namespace({"self": o, "fft": True})
+
+
+def _history_gen(rng, case):
+    import numpy as np
+    from pyvc.native import repo_module
+    pe = repo_module("pyerrors.obs")
+    r = np.random.default_rng(rng.randint(0, 10 ** 6))
+    n = rng.choice([40, 64])
+    x = np.zeros(n)
+    for i in range(1, n):
+        x[i] = 0.7 * x[i - 1] + r.normal()
+    o = pe.Obs([x[: n // 2] + 1.0, x[n // 2:] + 1.0], ["A|r1", "A|r2"])
+    first = rng.choice([{"S": 4.0}, {"S": 0.0}, {"tau_exp": 3.0, "N_sigma": 1.5}, {"S": 1.0, "fft": False}])
+    second = rng.choice([{}, {"S": 2.5}, {"tau_exp": 5.0}, {"fft": False}])
+    return {"self": o, "kwargs": second, "_first": first}
+
+
+def _history_post_native(a, r):
+    import copy
+    import numpy as np
+    from pyvc.native import repo_module
+    pe = repo_module("pyerrors.obs")
+    o = r.self
+    fresh_o = pe.Obs([o.deltas[n] + o.r_values[n] for n in o.names], list(o.names), idl=[o.idl[n] for n in o.names])
+    fresh_o.gamma_method(**a.kwargs)
+    ok = True
+    for k in RESULT_DICTS + ["_dvalue", "ddvalue"]:
+        x, y = getattr(o, k), getattr(fresh_o, k)
+        if isinstance(x, dict):
+            ok = ok and set(x) == set(y) and all(np.allclose(x[e], y[e], rtol=1e-12, atol=0, equal_nan=True) for e in x)
+        else:
+            ok = ok and bool(np.isclose(x, y, rtol=1e-12, atol=0))
+    return {"independent of the earlier analysis": bool(ok)}
+
+
+contract(
+    REL + "::Obs.gamma_method", name=REL + "::Obs.gamma_method[results of earlier analyses are discarded]", props=["C03"],
+    slice=_reset_slice,
+    params=dict(self=Custom(_stale_obj), kwargs=OneOf(none=Custom(lambda n, c, s: CDict(), native=lambda v, ev: {}),
+                                                       nofft=Custom(lambda n, c, s: CDict({"fft": False}), native=lambda v, ev: {"fft": False}))),
+    inline=[REL + "::Obs.e_content", REL + "::Obs.e_names", REL + "::Obs.mc_names", REL + "::Obs.cov_names"],
+    writable_attrs={"self": GM_WRITABLE},
+    ensures=_reset_post,
+    native_call=_history_native, gen=_history_gen, crosscheck=False, refute=False,
+    slice_note="the statements of gamma_method before the nested function _parse_kwarg; the object carries arbitrary results of an earlier "
+               "analysis; natively the complete analysis is run twice and compared with the analysis of a fresh copy",
+)
